@@ -6,6 +6,7 @@ import (
 	"sort"
 	"strconv"
 	"strings"
+	"sync"
 )
 
 // Term is an SMT-LIB term with its sort.
@@ -202,16 +203,22 @@ func splitArraySort(s string) (string, string) {
 
 // Script accumulates declarations and assertions for one function's VC.
 type Script struct {
-	sorts     []string          // datatype declarations in order
-	sortDecl  map[string]bool
-	decls     []string          // declare-fun / define-fun in order
-	declared  map[string]string // symbol -> sort (or signature)
-	asserts   []string          // assertion bodies, in generation order
-	axioms    []string          // always included
-	fresh     int
-	structs   map[string]*structSort
-	typeIDs   map[string]int
-	typeNames []string
+	sorts      []string // datatype declarations in order
+	sortDecl   map[string]bool
+	decls      []string          // declare-fun / define-fun in order
+	declared   map[string]string // symbol -> sort (or signature)
+	asserts    []string          // assertion bodies, in generation order
+	axioms     []string          // always included
+	assertSyms [][]string
+	symIndex   map[string][]int
+	mu         sync.Mutex
+	declSyms   []string
+	defOf      map[int]string // assertion index -> symbol it defines (conservative extension)
+	defIdx     map[string]int
+	fresh      int
+	structs    map[string]*structSort
+	typeIDs    map[string]int
+	typeNames  []string
 }
 
 type structSort struct {
@@ -245,6 +252,7 @@ func (s *Script) declare(name, sort string) Term {
 	}
 	s.declared[q] = sort
 	s.decls = append(s.decls, fmt.Sprintf("(declare-fun %s () %s)", q, sort))
+	s.declSyms = append(s.declSyms, q)
 	return Term{q, sort}
 }
 
@@ -259,6 +267,7 @@ func (s *Script) declareFun(name string, args []string, ret string) string {
 	}
 	s.declared[q] = sig
 	s.decls = append(s.decls, fmt.Sprintf("(declare-fun %s %s)", q, sig))
+	s.declSyms = append(s.declSyms, q)
 	return q
 }
 
@@ -269,7 +278,18 @@ func (s *Script) freshConst(prefix, sort string) Term {
 // define introduces a named constant equal to t (keeps terms small).
 func (s *Script) define(name string, t Term) Term {
 	c := s.declare(name, t.Sort)
+	before := len(s.asserts)
 	s.assert(eq(c, t))
+	if len(s.asserts) == before+1 && c.S != t.S {
+		if s.defOf == nil {
+			s.defOf = map[int]string{}
+			s.defIdx = map[string]int{}
+		}
+		if _, dup := s.defIdx[c.S]; !dup {
+			s.defOf[before] = c.S
+			s.defIdx[c.S] = before
+		}
+	}
 	return c
 }
 
@@ -300,8 +320,108 @@ func (s *Script) typeID(t types.Type) Term {
 	return intLit(int64(id))
 }
 
-// query renders a complete SMT-LIB script checking sat of asserts[0:n] ∧ extra.
+// symbolsOf lists the declared symbols occurring in an s-expression string.
+func (s *Script) symbolsOf(text string) []string {
+	var out []string
+	i := 0
+	n := len(text)
+	for i < n {
+		c := text[i]
+		switch {
+		case c == '(' || c == ')' || c == ' ' || c == '\n' || c == '\t':
+			i++
+		case c == '|':
+			j := i + 1
+			for j < n && text[j] != '|' {
+				j++
+			}
+			tok := text[i : j+1]
+			if _, ok := s.declared[tok]; ok {
+				out = append(out, tok)
+			}
+			i = j + 1
+		case c == '"':
+			j := i + 1
+			for j < n {
+				if text[j] == '"' {
+					if j+1 < n && text[j+1] == '"' {
+						j += 2
+						continue
+					}
+					break
+				}
+				j++
+			}
+			i = j + 1
+		default:
+			j := i
+			for j < n && text[j] != '(' && text[j] != ')' && text[j] != ' ' && text[j] != '\n' {
+				j++
+			}
+			tok := text[i:j]
+			if _, ok := s.declared[tok]; ok {
+				out = append(out, tok)
+			}
+			i = j
+		}
+	}
+	return out
+}
+
+func (s *Script) indexAsserts() {
+	if s.symIndex == nil {
+		s.symIndex = map[string][]int{}
+	}
+	for i := len(s.assertSyms); i < len(s.asserts); i++ {
+		syms := s.symbolsOf(s.asserts[i])
+		s.assertSyms = append(s.assertSyms, syms)
+		if _, isDef := s.defOf[i]; isDef {
+			continue // definitions are pulled in only through the symbol they define
+		}
+		for _, y := range syms {
+			s.symIndex[y] = append(s.symIndex[y], i)
+		}
+	}
+}
+
+// query renders a complete SMT-LIB script checking sat of (the cone of influence of extra within asserts[0:n]) ∧ extra.
+// Dropping assertions that share no symbol (transitively) with the goal is sound for unsat answers and
+// keeps sat answers meaningful (the dropped part constrains disjoint symbols only).
 func (s *Script) query(n int, extra []Term, wantModel bool) string {
+	s.mu.Lock()
+	s.indexAsserts()
+	s.mu.Unlock()
+	keep := make([]bool, n)
+	seenSym := map[string]bool{}
+	var work []string
+	push := func(syms []string) {
+		for _, y := range syms {
+			if !seenSym[y] {
+				seenSym[y] = true
+				work = append(work, y)
+			}
+		}
+	}
+	for _, e := range extra {
+		push(s.symbolsOf(e.S))
+	}
+	for _, a := range s.axioms {
+		_ = a
+	}
+	for len(work) > 0 {
+		y := work[len(work)-1]
+		work = work[:len(work)-1]
+		if di, ok := s.defIdx[y]; ok && di < n && !keep[di] {
+			keep[di] = true
+			push(s.assertSyms[di])
+		}
+		for _, ai := range s.symIndex[y] {
+			if ai < n && !keep[ai] {
+				keep[ai] = true
+				push(s.assertSyms[ai])
+			}
+		}
+	}
 	var b strings.Builder
 	b.WriteString("(set-option :produce-models true)\n(set-logic ALL)\n")
 	b.WriteString(prelude)
@@ -309,7 +429,16 @@ func (s *Script) query(n int, extra []Term, wantModel bool) string {
 		b.WriteString(d)
 		b.WriteByte('\n')
 	}
-	for _, d := range s.decls {
+	used := seenSym
+	for _, a := range s.axioms {
+		for _, y := range s.symbolsOf(a) {
+			used[y] = true
+		}
+	}
+	for i, d := range s.decls {
+		if !used[s.declSyms[i]] {
+			continue
+		}
 		b.WriteString(d)
 		b.WriteByte('\n')
 	}
@@ -318,7 +447,10 @@ func (s *Script) query(n int, extra []Term, wantModel bool) string {
 		b.WriteString(a)
 		b.WriteString(")\n")
 	}
-	for _, a := range s.asserts[:n] {
+	for i, a := range s.asserts[:n] {
+		if !keep[i] {
+			continue
+		}
 		b.WriteString("(assert ")
 		b.WriteString(a)
 		b.WriteString(")\n")
